@@ -111,6 +111,8 @@ def run(ctx, rep):
         crate = ctx.crate(cfg)
         check_value_ord(crate, rep, cfg)
         check_key(crate, rep, cfg)
+        from props import c13
+        c13.check_cmp(crate, rep, cfg)      # == / < on numbers compare exact mathematical values (no lossy cast of a compared operand)
     pos = ctx.posctl()
     check_posctl(ctx, pos)
 
